@@ -12,7 +12,7 @@ namespace Echse.Ical
 completes comes out of the ordinary `drain` loop (verb from the METHOD, verb-less ones passed over), not out of
 the last pull (the same verb marked: `L`, `LU`, `LR`) as in `finish`; see `finishEof_modL` below -/
 def finishEof (A : Abs) (ins : List Instr) : List Instr × List (List Byte) :=
-  if A.sc.pend = true ∧ A.cur ≠ [] ∧ A.cur.length < stashSize then
+  if A.sc.pend = true ∧ A.cur ≠ [] then
     (match (procLine A.comp A.cur).2 with
       | .ve =>
         if verbOf (procLine A.comp A.cur).1.meth (procLine A.comp A.cur).1.cur == "X" then ins
@@ -29,7 +29,7 @@ theorem finishEof_log (A : Abs) (ins : List Instr) : (finishEof A ins).2 = (fini
 
 /-- the instructions differ from `finish` only if the pending last line completes an event -/
 theorem finishEof_eq (A : Abs) (ins : List Instr)
-    (h : ¬ (A.sc.pend = true ∧ A.cur ≠ [] ∧ A.cur.length < stashSize ∧ (procLine A.comp A.cur).2 = .ve)) :
+    (h : ¬ (A.sc.pend = true ∧ A.cur ≠ [] ∧ (procLine A.comp A.cur).2 = .ve)) :
     finishEof A ins = finish A ins := by
   unfold finishEof finish
   split
@@ -37,7 +37,7 @@ theorem finishEof_eq (A : Abs) (ins : List Instr)
     cases hr : (procLine A.comp A.cur).2 with
     | none => rfl
     | eop => rfl
-    | ve => exact absurd ⟨hc.1, hc.2.1, hc.2.2, hr⟩ h
+    | ve => exact absurd ⟨hc.1, hc.2, hr⟩ h
   · rfl
 
 theorem stashRest_eolp (p : Parser) (h : p.eolp = false) : (stashRest p false).1.eolp = false := by
@@ -83,8 +83,8 @@ theorem eof_spec (q : Parser) (A : Abs) (hrel : Rel q A) (ins : List Instr) :
   generalize hp0 : ({ q with buf := [], bix := 0 } : Parser) = p0
   have hbuf : p0.buf = [] := by rw [← hp0]
   have hbix : p0.bix = 0 := by rw [← hp0]
-  have hfits : A.cur.length < stashSize → p0.skip = false ∧ p0.stash = A.cur := by rw [← hp0]; exact hrel.fits
-  have hover : stashSize ≤ A.cur.length → p0.skip = true ∧ p0.stash = [] := by rw [← hp0]; exact hrel.over
+  have hk : p0.skip = false := by rw [← hp0]; exact hrel.skip
+  have hst : p0.stash = A.cur := by rw [← hp0]; exact hrel.stash
   have hco : p0.comp = A.comp := by rw [← hp0]; exact hrel.comp
   have hlo : p0.log = A.log := by rw [← hp0]; exact hrel.log
   have hmk : p0.eolp = true ↔ A.sc.pend = true := by rw [← hp0]; exact hrel.mark
@@ -93,18 +93,6 @@ theorem eof_spec (q : Parser) (A : Abs) (hrel : Rel q A) (ins : List Instr) :
     have hnf : ¬ Fold (bpOf p0) := by
       unfold bpOf; rw [hbuf, hbix]; decide
     have hmu : mu p0 < 2 := by have := mu_le p0; rw [hbuf] at this; simp at this; omega
-    by_cases hfit : A.cur.length < stashSize
-    case neg =>
-      -- the last line does not fit: passed over
-      have hk := (hover (by omega)).1
-      rw [drain_round 2 p0 ins hmu, round_marked_skip p0 ⟨hm, hnf⟩ hk]
-      dsimp only
-      rw [eof_unmarked 2 ({ unmark p0 with skip := false, stash := [] } : Parser) ins (by omega) hbuf rfl]
-      unfold finishEof
-      rw [if_neg (fun hx => by omega)]
-      show (ins, p0.log) = _
-      rw [hlo]
-    obtain ⟨hk, hst⟩ := hfits hfit
     by_cases hs : p0.stash.length ≠ 0
     · have hcur : A.cur ≠ [] := by
         rw [← hst]; intro hx; rw [hx] at hs; exact hs rfl
@@ -118,7 +106,7 @@ theorem eof_spec (q : Parser) (A : Abs) (hrel : Rel q A) (ins : List Instr) :
       have he1 : (doProc (unmark p0)).1.eolp = false := rfl
       rw [drain_round 2 p0 ins hmu, round_marked p0 ⟨hm, hnf⟩ hk hs]
       unfold finishEof
-      rw [if_pos ⟨hpend, hcur, hfit⟩]
+      rw [if_pos ⟨hpend, hcur⟩]
       unfold procRes
       cases hr : (procLine A.comp A.cur).2 with
       | none =>
@@ -142,7 +130,7 @@ theorem eof_spec (q : Parser) (A : Abs) (hrel : Rel q A) (ins : List Instr) :
       dsimp only
       rw [eof_unmarked 2 (unmark p0) ins (by omega) hbuf rfl]
       unfold finishEof
-      rw [if_neg (fun hx => hx.2.1 hcur)]
+      rw [if_neg (fun hx => hx.2 hcur)]
       show (ins, p0.log) = _
       rw [hlo]
   · have he : p0.eolp = false := by
